@@ -215,6 +215,60 @@ def is_generic(t):
     return False
 
 
+def vconst(t):
+    """no random leaf below: the operand is a constant when the text is evaluated (not isLazy)"""
+    return not refs(t, set()) and not vids(t, set())
+
+
+def vstatic(t, g, hits):
+    """What Scenic knows at compile time about the type of a vector-valued operand (type_support.isA(x, Vector)):
+    'T' typed as Vector (constants, Vector with random coordinates, VectorDistribution, Uniform over vectors, and whatever a
+    special method of those returns); 'U' untyped (`_valueType` is object: a lifted function without annotation, `R * v` with a
+    random scalar R first, and operators dispatched on such an object); 'N' the value type is not a class: `a relative to b` /
+    `a offset by b` with neither operand typed is resolved at sampling (veneer.lazyRelativeTo, annotated
+    `-> Union[Vector, float, Orientation]`).  `hits` collects the operators dispatched to a handler of
+    distributions.makeOperatorHandler on an 'N' object with a constant argument (finding C05-F12: the shortcut test
+    issubclass(self._valueType, Number) raises TypeError on the union; a random argument skips the test)."""
+    k = t[0]
+    V = lambda x: vstatic(x, g, hits)
+    if k in ("cv", "rv"):
+        return "T"
+    if k == "pv":
+        d = g.defs[t[1]]["scenic"] if hasattr(g, "defs") else ""
+        return "U" if d.startswith("mkvec(") else "T"
+    if k == "vbin":
+        a, b = V(t[2]), V(t[3])
+        obj, arg = (b, t[2]) if is_rawtuple(t[2]) else (a, t[3])   # a raw tuple on the left: reflected method of b
+        if obj == "N":
+            # the handlers of + / reflected + / - (not reflected -) test `not isLazy(arg)` first, then the value type
+            if vconst(arg) and not (is_rawtuple(t[2]) and t[1]):
+                hits.append("vbin")
+            return "U"
+        return obj
+    if k == "vrel":
+        a, b = V(t[2]), V(t[3])
+        return "T" if "T" in (a, b) else "N"
+    if k in ("vmul", "vdiv"):
+        a = V(t[1])
+        if a == "N":
+            if t[2][0] == "const":
+                hits.append(k)
+            return "U"
+        return a
+    if k == "vrmul":
+        a = V(t[2])
+        if t[1][0] == "ref":
+            return "U"                            # Distribution.__mul__ of the random scalar
+        if a == "N":
+            hits.append(k)
+            return "U"
+        return a
+    if k == "vrot":
+        a = V(t[1])
+        return "U" if a == "N" else a
+    raise ValueError(k)
+
+
 def is_rawtuple(t):
     return t[0] == "cv" and t[2] == "tuple"
 
@@ -316,6 +370,10 @@ def vids(t, acc):
 
 def finish_case(g, t, cid, seed, nsamples, tags):
     used = refs(t, set())
+    hits = []
+    vstatic(t, g, hits)
+    if hits:
+        tags = list(tags) + ["arith-on-untyped-rel"]
     defs = [dict(idx=d["idx"], kind="leaf", var=d["var"], scenic=d["scenic"], py=None) for d in g.defs if d["idx"] in used]
     vleaves = {str(v): g.vleaves[v] for v in sorted(vids(t, set()))}
     return dict(id=cid, kind="expr", seed=seed, nsamples=nsamples, expr=vrender(t, g.defs, False), py=vrender(t, g.defs, True),
@@ -323,6 +381,65 @@ def finish_case(g, t, cid, seed, nsamples, tags):
                 prelude=(PRELUDE if g.prelude else ""), vmodel=vmodel(t, g), vleaves=vleaves,
                 vdefs={str(i): c for i, c in g.vdefs.items() if i in used}, rots=sorted(i for i in g.rots if i in used),
                 sleaves=sorted(i for i in g.sleaves if i in used))
+
+
+def untyped_rel_tree(g):
+    rng = g.rng
+
+    def U(depth=1):      # an operand whose `_valueType` is object
+        k = rng.choice(["gm", "R*x", "U+x", "k*U", "U/k", "U*k", "tl"] if depth > 0 else ["gm", "R*x"])
+        if k == "gm":
+            g.prelude = True
+            i = len(g.defs)
+            g.defs.append(dict(idx=i, kind="leaf", var=f"P{i}", py=None, role="v",
+                               scenic=f"mkvec(Range({rng.choice([-1, 0, 1])}, 2), {rng.choice([0, 2, -0.5])})"))
+            g.vdefs[i] = "g"
+            return ("pv", i)
+        if k == "R*x":
+            r = g.sleaf(positive=True)
+            g.sleaves.add(r[1])
+            return ("vrmul", r, g.tree(0))
+        if k == "U+x":
+            return ("vbin", rng.random() < .5, U(depth - 1), g.tree(0))
+        if k == "k*U":
+            return ("vrmul", ("const", rng.choice([2, -1, 0.5])), U(depth - 1))
+        if k == "U/k":
+            return ("vdiv", U(depth - 1), g.scalar(nonzero=True))
+        if k == "U*k":
+            return ("vmul", U(depth - 1), g.scalar())
+        g.tags.add("tuple-operand")
+        return ("vbin", rng.random() < .5, g.cvec(3, [False] * 3, "tuple"), U(depth - 1))
+
+    def outer(x):
+        k = rng.choice(["bin", "binr", "tl", "tr", "mul", "rmulc", "rmulr", "div", "rel", "relU", "relr"])
+        if k == "bin":
+            return ("vbin", rng.random() < .5, x, g.tree(rng.choice([0, 1])))
+        if k == "binr":
+            return ("vbin", rng.random() < .5, g.tree(rng.choice([0, 1])), x)
+        if k in ("tl", "tr"):
+            g.tags.add("tuple-operand")
+            c = g.cvec(3, [rng.random() < 0.3 for _ in range(3)], "tuple")
+            return ("vbin", rng.random() < .5, c, x) if k == "tl" else ("vbin", rng.random() < .5, x, c)
+        if k == "mul":
+            return ("vmul", x, g.scalar())
+        if k == "rmulc":
+            return ("vrmul", ("const", rng.choice([2, -1, 0.5, 1])), x)
+        if k == "rmulr":
+            r = g.sleaf(positive=True)
+            g.sleaves.add(r[1])
+            return ("vrmul", r, x)
+        if k == "div":
+            return ("vdiv", x, g.scalar(nonzero=True))
+        if k == "rel":
+            return ("vrel", "offset by", x, g.tree(0))
+        if k == "relr":
+            return ("vrel", "relative to", g.tree(0), x)
+        return ("vrel", "offset by", x, U())
+
+    t = ("vrel", rng.choice(["relative to", "offset by"]), U(), U())
+    for _ in range(rng.choice([1, 1, 2, 3])):
+        t = outer(t)
+    return t
 
 
 def build_vcases(rng, quick):
@@ -396,6 +513,13 @@ def build_vcases(rng, quick):
         g = VGen(rng)
         t = g.tree(rng.choice([1, 1, 2, 2, 3]))
         cases.append(finish_case(g, t, f"v{n}", rng.randint(0, 10 ** 6), nsamples, ["vtree"]))
+        n += 1
+    # `relative to` / `offset by` of two operands Scenic cannot type at compile time (resolved at sampling), then more
+    # operators on the result (finding C05-F12 for the forms tagged arith-on-untyped-rel)
+    for _ in range(8 if quick else 160):
+        g = VGen(rng)
+        t = untyped_rel_tree(g)
+        cases.append(finish_case(g, t, f"v{n}", rng.randint(0, 10 ** 6), nsamples, ["vtree", "untyped-rel"]))
         n += 1
     return cases
 
